@@ -78,6 +78,17 @@ func (th *Thread) binop(op token.Token, t types.Type, x, y Value) Value {
 		return Not(eqTerm(x, y))
 	}
 	x, y = th.force(x), th.force(y)
+	_, xo := x.(OpaqueFloat)
+	_, yo := y.(OpaqueFloat)
+	if xo || yo {
+		th.p.w.res.Intrinsics["opaque float arithmetic"]++
+		switch op {
+		case token.ADD, token.SUB, token.MUL, token.QUO:
+			return OpaqueFloat{}
+		case token.LSS, token.LEQ, token.GTR, token.GEQ:
+			return th.p.freshVar("fcmp", 0)
+		}
+	}
 	switch xv := x.(type) {
 	case *Term:
 		yv := y.(*Term)
@@ -271,6 +282,9 @@ func (th *Thread) conv(dst, src types.Type, x Value) Value {
 					return xv
 				}
 				return Resize(xv, dw, ssigned)
+			case OpaqueFloat:
+				th.p.w.res.Intrinsics["opaque float -> integer (unconstrained)"]++
+				return th.p.freshVar("fint", dw)
 			case float64:
 				if math.IsNaN(xv) || math.IsInf(xv, 0) {
 					return BV(dw, 0)
@@ -293,9 +307,11 @@ func (th *Thread) conv(dst, src types.Type, x Value) Value {
 					return float64(float32(xv))
 				}
 				return xv
+			case OpaqueFloat:
+				return xv
 			case *Term:
 				if xv.Op != OpConst {
-					panic(unsupported{"conversion of symbolic integer to float"})
+					return OpaqueFloat{}
 				}
 				_, ssigned, _ := widthOf(us)
 				var f float64
